@@ -8,10 +8,11 @@
 package c11
 
 import (
-	"reflect"
 	"bytes"
 	"errors"
 	"fmt"
+	"google.golang.org/protobuf/encoding/protowire"
+	"reflect"
 	"runtime/debug"
 	"testing"
 
@@ -397,6 +398,27 @@ func runC11(t *rapid.T, w *rep.Worker, maxClients int) {
 			func() {
 				defer func() { _ = recover() }()
 				corpus.Populate(t, corpus.Wrap(m), 1)
+			}()
+		}
+		if rapid.IntRange(0, 3).Draw(t, "unknownfields") == 0 {
+			// the value carries fields its schema does not define (it was written by a newer peer): every dispatcher
+			// function must treat them as the owning runtime does
+			func() {
+				defer func() {
+					if p := recover(); p != nil && rep.IsChoicePanic(p) {
+						panic(p)
+					}
+				}()
+				r := corpus.Wrap(m)
+				u := append([]byte{}, r.GetUnknown()...)
+				u = protowire.AppendTag(u, 15000, protowire.VarintType)
+				u = protowire.AppendVarint(u, 7)
+				if rapid.Bool().Draw(t, "unknownbytes") {
+					u = protowire.AppendTag(u, 15001, protowire.BytesType)
+					u = protowire.AppendString(u, "from a newer schema")
+				}
+				r.SetUnknown(u)
+				w.Fault("value_with_unknown_fields")
 			}()
 		}
 		vals = append(vals, value{k, m})
